@@ -71,6 +71,7 @@ func (c *Conv) subst(s string) string {
 	s = strings.ReplaceAll(s, "PFX", c.Pfx)
 	s = strings.ReplaceAll(s, "pfx", strings.ToLower(c.Pfx))
 	s = strings.ReplaceAll(s, "CNAME", c.Name)
+	s = strings.ReplaceAll(s, "CONVMETHOD", c.Method)
 	if c.Group != "" {
 		s = strings.ReplaceAll(s, "UGRP", strings.ToUpper(c.Group[:1])+c.Group[1:])
 	}
